@@ -183,8 +183,10 @@ class PDFXRef(PDFBaseXRef):
                 if pos_i is not None and genno_i is not None:
                     self.offsets[objid] = (None, pos_i, genno_i)
                 else:
-                    log.warning(
-                        f"Not adding object {objid} to xref because position {pos_b!r} "
+                    # A damaged entry: give up on this table so that the objects
+                    # are located by scanning the body instead of being lost.
+                    raise PDFNoValidXRef(
+                        f"Invalid XRef entry for object {objid}: position {pos_b!r} "
                         f"or generation number {genno_b!r} cannot be parsed as an int"
                     )
 
